@@ -100,7 +100,7 @@ def blockPoly (tbl : List Rat) (l : Nat) : Poly :=
   let b := TM.block tbl l
   Poly.trunc (TM.N + 1) (Poly.shift l (Poly.smul (1 / b.2) (Poly.ofHighFirst b.1)))
 
-theorem block_length (tbl : List Rat) (l : ℕ) (hl : 1 ≤ l) (hN : l ≤ TM.N) : l + (TM.block tbl l).1.length ≤ TM.N + 1 := by
+theorem block_length (tbl : List Rat) (l : ℕ) (_hl : 1 ≤ l) (hN : l ≤ TM.N) : l + (TM.block tbl l).1.length ≤ TM.N + 1 := by
   simp only [TM.block, List.length_take]
   omega
 
